@@ -763,8 +763,19 @@ func (c *Ctx) checkProgramLoopsAndAllocs(r *Report) {
 				continue
 			}
 			res := fn.Signature.Results()
-			if res.Len() != 1 || !isStatePtr(res.At(0).Type()) {
+			stIdx := -1
+			for i := 0; i < res.Len(); i++ {
+				if isStatePtr(res.At(i).Type()) {
+					stIdx = i
+				}
+			}
+			if stIdx < 0 {
 				continue
+			}
+			// a return that hands back no state (nil, next to an error) has nothing to carry
+			returnsState := func(in ssa.Instruction) bool {
+				ret, ok := in.(*ssa.Return)
+				return ok && !isNilConst(retVal(ret, stIdx))
 			}
 			recv := fn.Params[0]
 			isCtxFromRecv := func(in ssa.Instruction) bool {
@@ -785,7 +796,7 @@ func (c *Ctx) checkProgramLoopsAndAllocs(r *Report) {
 			}
 			returnsOther := false
 			eachInstr(fn, func(in ssa.Instruction) {
-				if ret, ok := in.(*ssa.Return); ok && retVal(ret, 0) != ssa.Value(recv) {
+				if ret, ok := in.(*ssa.Return); ok && returnsState(in) && retVal(ret, stIdx) != ssa.Value(recv) {
 					returnsOther = true
 				}
 			})
@@ -793,7 +804,7 @@ func (c *Ctx) checkProgramLoopsAndAllocs(r *Report) {
 				continue
 			}
 			n7++
-			bad := mustPassFromEntry(fn, isCtxFromRecv, isReturn)
+			bad := mustPassFromEntry(fn, isCtxFromRecv, returnsState)
 			desc := "the state handed back carries the receiver's current Context on every path"
 			if bad != nil {
 				r.Fail("C09.R7", ssaFuncName(fn), desc, c.Pos(instrPos(bad.exit)), "a path returns a state whose Context was not set from the running state during this call (a state created once and reused keeps the context of the input that created it, cancelled since: macro bodies then fail with `context canceled`, or run without deadline)", c.tracePath(bad)...)
